@@ -23,11 +23,11 @@ open Rounding FloatReduce KernelModel
 section kernels
 variable {T Reg : Type} {E : Env} {R : SimdRegister T Reg} {M : Math T} {L : Nat} {lanes : Reg → Nat → T}
 variable {S : ScalarSpec T} {fm : T → T → T → T} {hsum hmax hmin : (Nat → T) → T}
-variable (AF : ArithFaithful R L lanes S) (RF : ReduceFaithful R L lanes S fm hsum hmax hmin) (MFa : MathFaithful M S)
+variable (SB : SumBackend R L lanes S fm hsum) (SM : SumMath M S)
 variable (F : FloatSem S fm) {hd : ℕ} {hfoldA : (ℕ → Ab) → Ab} (HF : HFoldSem F L hd hsum hfoldA)
 variable (hloc : FoldLocal L hsum) (hsmall : L * 8 < usizeMod) (hhd : hd + 1 ≤ L)
 variable (dims : Nat) (hfuel : dims < E.fuel) (hk : ((dims + 3 : ℕ) : ℝ) * F.u < 1)
-include AF RF MFa HF hloc hsmall hhd hfuel hk
+include SB SM HF hloc hsmall hhd hfuel hk
 
 /-- **C04 (dot product).** The kernel returns a value `v` without fault; if `v` is finite and no product `aᵢ·bᵢ`
 underflows, `|v − Σ aᵢbᵢ| ≤ γ(n+3) · Σ|aᵢbᵢ|`. -/
@@ -36,16 +36,16 @@ theorem dot_product_bound (a b : Slice T) (ha : a.size = dims) (hb : b.size = di
     ∃ v, generic_dot_product E R M dims a b = pure v ∧
       (F.Fin v → |F.val v - ((List.range dims).map (fun i => F.val (a.get i) * F.val (b.get i))).sum|
         ≤ gamma F.u (dims + 3) * ((List.range dims).map (fun i => |F.val (a.get i) * F.val (b.get i)|)).sum) :=
-  ⟨_, KernelModel.dot_product AF RF MFa dims hfuel hloc a b ha hb, fun hfin =>
-    dot_bound F E L hd dims AF.mem.L_pos hsmall hhd hsum hfoldA HF a.get b.get hnu hfin hk⟩
+  ⟨_, KernelModel.dot_product' SB SM dims hfuel hloc a b ha hb, fun hfin =>
+    dot_bound F E L hd dims SB.mem.L_pos hsmall hhd hsum hfoldA HF a.get b.get hnu hfin hk⟩
 
 /-- **C04 (squared L2 norm)** = the dot product of the vector with itself -/
 theorem squared_norm_bound (a : Slice T) (ha : a.size = dims) (hnu : ∀ i, F.NoUf (a.get i) (a.get i)) :
     ∃ v, generic_squared_norm E R M dims a = pure v ∧
       (F.Fin v → |F.val v - ((List.range dims).map (fun i => F.val (a.get i) * F.val (a.get i))).sum|
         ≤ gamma F.u (dims + 3) * ((List.range dims).map (fun i => |F.val (a.get i) * F.val (a.get i)|)).sum) :=
-  ⟨_, KernelModel.squared_norm AF RF MFa dims hfuel hloc a ha, fun hfin =>
-    dot_bound F E L hd dims AF.mem.L_pos hsmall hhd hsum hfoldA HF a.get a.get hnu hfin hk⟩
+  ⟨_, KernelModel.squared_norm' SB SM dims hfuel hloc a ha, fun hfin =>
+    dot_bound F E L hd dims SB.mem.L_pos hsmall hhd hsum hfoldA HF a.get a.get hnu hfin hk⟩
 
 /-- **C04 (squared Euclidean distance).** The accumulated terms are the squares of the *computed* differences
 `dᵢ = fl(aᵢ − bᵢ)`; the result is within `γ(n+3) · Σ dᵢ²` of `Σ dᵢ²`. -/
@@ -56,16 +56,16 @@ theorem euclidean_bound (a b : Slice T) (ha : a.size = dims) (hb : b.size = dims
             F.val (S.sub (a.get i) (b.get i)) * F.val (S.sub (a.get i) (b.get i)))).sum|
         ≤ gamma F.u (dims + 3) * ((List.range dims).map (fun i =>
             |F.val (S.sub (a.get i) (b.get i)) * F.val (S.sub (a.get i) (b.get i))|)).sum) :=
-  ⟨_, KernelModel.euclidean AF RF MFa dims hfuel hloc a b ha hb, fun hfin =>
-    dot_bound F E L hd dims AF.mem.L_pos hsmall hhd hsum hfoldA HF _ _ hnu hfin hk⟩
+  ⟨_, KernelModel.euclidean' SB SM dims hfuel hloc a b ha hb, fun hfin =>
+    dot_bound F E L hd dims SB.mem.L_pos hsmall hhd hsum hfoldA HF _ _ hnu hfin hk⟩
 
 /-- **C04 (sum).** -/
 theorem sum_bound' (a : Slice T) (ha : a.size = dims) :
     ∃ v, generic_sum E R M dims a = pure v ∧
       (F.Fin v → |F.val v - ((List.range dims).map (fun i => F.val (a.get i))).sum|
         ≤ gamma F.u (dims + 3) * ((List.range dims).map (fun i => |F.val (a.get i)|)).sum) :=
-  ⟨_, KernelModel.sum AF RF MFa dims hfuel hloc a ha, fun hfin =>
-    sum_bound F E L hd dims AF.mem.L_pos hsmall hhd hsum hfoldA HF a.get hfin hk⟩
+  ⟨_, KernelModel.sum' SB SM dims hfuel hloc a ha, fun hfin =>
+    sum_bound F E L hd dims SB.mem.L_pos hsmall hhd hsum hfoldA HF a.get hfin hk⟩
 
 end kernels
 
@@ -106,7 +106,8 @@ theorem fallback_dot_bound {T : Type} (E : Env) (AM : Math T) (sz : Nat) (hsz : 
         ≤ gamma u (a.size + 3) * ((List.range a.size).map (fun i => |val (a.get i) * val (b.get i)|)).sum) := by
   let F : FloatSem S (fun x y acc => S.add (S.mul x y) acc) :=
     FloatSem.ofUnfused val u hu Fin NoUf zero_val add_std mul_std
-  exact dot_product_bound (E := E) (C02.fallback_arith E AM S sz hsz MFa) (C13Fallback.reduce E AM sz MFa) MFa F
+  exact dot_product_bound (E := E)
+    (SumBackend.of (C02.fallback_arith E AM S sz hsz MFa) (C13Fallback.reduce E AM sz MFa)) (SumMath.of MFa) F
     (hfold1_sem F) (fun f g h => h 0 (by omega)) (by decide) (by omega) a.size hfuel hk a b rfl hb hnu
 
 /-- a model register with `L` lanes, fused multiply-add, sequential horizontal fold: the bound holds for every `L ≥ 1`
@@ -130,8 +131,9 @@ theorem model_register_dot_bound {T : Type} (E : Env) (S : ScalarSpec T) (fm : T
       show seqFold S.add f (n + 2) = seqFold S.add g (n + 2)
       have ih' : seqFold S.add f (n + 1) = seqFold S.add g (n + 1) := ih (fun k hk => h k (by omega))
       rw [seqFold, seqFold, ih', h (n + 1) (by omega)]
-  exact dot_product_bound (ModelReg.arith _ S L fm _ hmax hmin hL hsmall) (ModelReg.reduce _ S L fm _ hmax hmin hL)
-    (ModelReg.math_faithful S sq) F (seqFold_sem F L hL) hloc hsmall (by omega) a.size
+  exact dot_product_bound
+    (SumBackend.of (ModelReg.arith _ S L fm _ hmax hmin hL hsmall) (ModelReg.reduce _ S L fm _ hmax hmin hL))
+    (SumMath.of (ModelReg.math_faithful S sq)) F (seqFold_sem F L hL) hloc hsmall (by omega) a.size
     (by simp [ModelReg.withFuel]) hk a b rfl hb hnu
 
 /-! ### non-vacuity: the assumptions on the arithmetic are satisfiable -/
